@@ -4,7 +4,7 @@ import re
 import subprocess
 
 from engines import effects, arms, wire
-from engines.paths import enumerate_paths, classify_return
+from engines.paths import enumerate_paths, classify_return, emptiness_of
 from engines.prog import cname, term_str
 from engines import terms as T
 from engines.terms import Aff
@@ -180,6 +180,10 @@ def run(ctx):
                     conds["complete"] = truth
                 if T.is_field(T.peel(v), "finished"):
                     conds["finished"] = truth
+        if "empty" not in conds:
+            e_ = emptiness_of(p, lambda x: T.is_field(x, "columns"))
+            if e_ is not None:
+                conds["empty"] = e_
         if conds.get("finished"):
             continue
         n += 1
